@@ -22,13 +22,13 @@ Fa == INSTANCE Robust WITH pc <- "Idle", alive <- TRUE, spin <- FALSE, c <- 0, g
         ExtLenZeroLoops <- TRUE, NonceLenUnchecked <- TRUE, CookieDecodeUnchecked <- TRUE,
         PacketOverflowUnchecked <- TRUE, ShortUniqueIdEchoed <- TRUE, CsptpShortDatagram <- TRUE,
         ScionReverseUnchecked <- TRUE, ScionAddrLenUnchecked <- TRUE, ScionAuthOptUnchecked <- TRUE, ScionMacErrPanics <- TRUE,
-        ScionTsOptUnchecked <- TRUE, ScionTsOptTrusted <- TRUE
+        ScionTsOptUnchecked <- TRUE, ScionTsOptTrusted <- TRUE, CmsgLenUnchecked <- TRUE
 Rp == INSTANCE Robust WITH pc <- "Idle", alive <- TRUE, spin <- FALSE, c <- 0, g <- 0, sent <- "none", k <- 0, tick <- 0,
         Kinds <- {}, MaxExt <- 0, MaxExtCli <- 0, MaxKe <- 0, MaxCases <- 0, Wide <- TRUE, ScDev <- 99,
         ExtLenZeroLoops <- FALSE, NonceLenUnchecked <- FALSE, CookieDecodeUnchecked <- FALSE,
         PacketOverflowUnchecked <- FALSE, ShortUniqueIdEchoed <- FALSE, CsptpShortDatagram <- FALSE,
         ScionReverseUnchecked <- FALSE, ScionAddrLenUnchecked <- FALSE, ScionAuthOptUnchecked <- FALSE, ScionMacErrPanics <- FALSE,
-        ScionTsOptUnchecked <- FALSE, ScionTsOptTrusted <- FALSE
+        ScionTsOptUnchecked <- FALSE, ScionTsOptTrusted <- FALSE, CmsgLenUnchecked <- FALSE
 
 Trace == ndJsonDeserialize("trace.ndjson")
 N == Len(Trace)
